@@ -128,7 +128,9 @@ CLAIMS = {
     'C16': dict(
         text="LIST equalities (order and multiplicity) c16_unnest_pair, c16_unnest_elem, c16_unnest_parent_cond, "
              "c16_unnest_elem_cond, c16_unnest_both_cond (and_ of a parent condition and an element condition), "
-             "c16_unnest_elem_vs_parent (the element compared with an expression over its OWN parent), c16_nonempty_singleton: flatten(t) yields one row per inner element, correlated with its parent, "
+             "c16_unnest_elem_vs_parent (the element compared with an expression over its OWN parent), c16_same_element_twice / "
+             "c16_pred_same_element (two arguments that are the same flatten node are the same element under every incoming "
+             "binding: P(e, e) never pairs an element with a sibling), c16_nonempty_singleton: flatten(t) yields one row per inner element, correlated with its parent, "
              "with/without conditions on parent or element, parent selected or not; proved for an arbitrary World. For ANY condition and "
              "selection with flatten nodes (set level; Lemmas/Flat.lean re-proves soundness and completeness of the evaluator with "
              "flatten in the language, an assignment giving every flatten node an element of its operand's collection): "
